@@ -187,7 +187,7 @@ pub fn run(run: &Run) {
         }
         rep
     });
-    run.random("random", run.cases(150_000, 3_000_000), 0.3, strategy, check);
+    run.random("random", run.cases(1_000_000, 20_000_000), 0.3, strategy, check);
 }
 
 pub fn replay(_section: &str, case: &Json) -> Option<CheckResult> {
